@@ -1,6 +1,9 @@
 package vlib
 
-import "io"
+import (
+	"io"
+	"sync"
+)
 
 // ChunkReader hands out at most N bytes per Read call (N <= 0: as much as fits) and
 // counts what it handed out.
@@ -33,3 +36,6 @@ type CountWriter struct {
 }
 
 func (c *CountWriter) Write(p []byte) (int, error) { c.B = append(c.B, p...); return len(p), nil }
+
+// BigAlloc serialises the cases that allocate hundreds of megabytes (one at a time per process).
+var BigAlloc sync.Mutex
